@@ -100,7 +100,7 @@ static void do_start(void) {
 
 static void run_case(int n, char **lines) {
   static unsigned char buf[70000];
-  alarm(20);   /* a hang of the code under test ends this case as `crash sig=14` instead of stalling the batch */
+  alarm(5);    /* a hang of the code under test ends this case as `crash sig=14` instead of stalling the batch */
   v_quiet = 1; v_on_sent = on_sent; v_on_connect = on_connect; v_on_log = on_log; c16_on_message = on_message;
   for (int i = 0; i < n; i++) {
     char *l = lines[i];
